@@ -4,8 +4,14 @@ import importlib, traceback
 from vf import core
 
 
+# bounded checkers that have been reviewed and triaged (a file that is still being written is not used)
+BOUNDED_READY = {"C01", "C02", "C04", "C05", "C06", "C07", "C08", "C09", "C10", "C13", "C14", "C15", "C16", "C17", "C19", "C20"}
+
+
 def add_bounded(rep: core.Report, ctx: core.Ctx, pid: str):
     """Merge props/<pid>_bounded.run_bounded(ctx) into rep (the bounded stand-ins)."""
+    if pid not in BOUNDED_READY:
+        return
     name = f"props.{pid.lower()}_bounded"
     try:
         mod = importlib.import_module(name)
@@ -139,7 +145,7 @@ SPEC = {
                      "call histories, which also re-checks the Graph contracts natively."),
     "C17": dict(level="other", pyvc=True, extra=[],
                 text="Proved: unique_label_name freshness (paired names collide with no label). Bounded: rule-level structure and derivation bijection."),
-    "C18": dict(level="other", pyvc=True, extra=[_own("inplace_ownership")],
+    "C18": dict(level="other", pyvc=True, extra=[_own("inplace_ownership"), _own("no_hidden_state")],
                 text="Proved (ownership analysis over the real ASTs): every in-place write in the tensor modules reaches only storage allocated in "
                      "the same call or owned by the receiver by contract; Graph.copy / copy_graph / min_fill frame conditions by pyvc. Bounded: "
                      "snapshot comparison around queries."),
